@@ -142,11 +142,11 @@ package cty
 //
 // Equals: the mark clause is proved (every mark of a top-level operand is on the result: the preamble
 // strips all marks, compares, and re-applies them; nothing before the preamble returns). The functional
-// clauses are assumed at its call sites, not proved (C03; `ensures[assumed]`), and the function is verified
-// without a no-panic claim.
+// clauses are assumed at its call sites, not proved (C03; `ensures[assumed]`), and so is the absence of
+// panics for well-formed operands (`no_panic_assumed`).
 //@ func (cty.Value).Equals
 //@   tags C04
-//@   may_panic
+//@   no_panic_assumed
 //@   requires (and (wf_deep val) (wf_deep other))
 //@   ensures[assumed] (and (is_bool_ty (vty result)) (wf_deep result) (not (is_null result)))
 //@   ensures[assumed] (=> (and (not (is_marked val)) (not (is_marked other)) (or (not (is_known val)) (not (is_known other)))) (or (not (is_known result)) (bool_payload result false)))
